@@ -13,6 +13,8 @@ def _is_running_load(f, c):
     ts = c.func.get("res_targs") or c.targs
     if ts[:1] == ["bool"] or "AtomicBool" in short(c.name):
         return True
+    if c.dest is not None and not c.dest["p"] and f.local_ty(c.dest["l"]) == "bool":
+        return True   # an atomic load that yields a bool is a load of an AtomicBool
     for o in F.origins(f, c.args[0], depth=10):
         if o.kind in ("arg", "place") and o.place is not None:
             if "running" in place_fields(o.place) or f.local_name(o.place["l"]) == "running":
@@ -44,6 +46,28 @@ def _line_counter_problem(f, dividend, loops):
     calls = [short(o.call.name) for o in os_ if o.kind == "call"]
     return "it is derived from %s" % (calls[0] if calls else "a value that is not advanced once per line")
 
+
+def _only_called_from(P, g, allowed, depth=2):
+    """every (transitive, bounded) caller of g is one of the allowed functions"""
+    callers = set()
+    for h in P.fns.values():
+        if h.target != g.target:
+            continue
+        if any(g.key in P.callee_keys(h, c) for c in h.calls):
+            o = h
+            while o.kind == "Closure" and o.parent_key in P.fns:
+                o = P.fns[o.parent_key]
+            callers.add(o.key)
+    if not callers:
+        return False
+    for k in callers:
+        o = P.fns[k]
+        if o.spath in allowed:
+            continue
+        if depth > 0 and not o.loops() and _only_called_from(P, o, allowed, depth - 1):
+            continue
+        return False
+    return True
 
 def run(R):
     P = R.prog
@@ -169,6 +193,10 @@ def run(R):
                 R.ok("C19.flag", "reader|" + owner.spath.split("::")[-2] + "::" + owner.spath.split("::")[-1], "input loop", c.loc(), nontrivial=False)
             elif owner.spath.startswith("sqlgrep::table_editor") or owner.spath.startswith("sqlgrep::python_wrapper"):
                 continue
+            elif _only_called_from(P, owner, allowed_readers) and not owner.loops():
+                # a predicate helper of an input loop (`is_running()`): C19.sample analyses it inlined into its loop
+                R.ok("C19.flag", "reader|" + owner.spath.split("::")[-2] + "::" + owner.spath.split("::")[-1],
+                     "helper called only from the input loops", c.loc(), nontrivial=False)
             else:
                 R.violation("C19.flag", "reader|" + owner.spath,
                             "%s samples an atomic flag: an interrupt observed below the line loop (e.g. while printing the rows of one line) leaves "
